@@ -115,7 +115,10 @@ func main() {
 
 	// raw files
 	for rel, src := range cfg.Raw {
-		data, err2 := os.ReadFile(filepath.Join(*verif, src))
+		if !filepath.IsAbs(src) {
+			src = filepath.Join(*verif, src)
+		}
+		data, err2 := os.ReadFile(src)
 		must(err2)
 		put(filepath.Join(*repo, rel), data)
 	}
